@@ -198,8 +198,17 @@ def classify(h: ast.ExceptHandler) -> tuple[set, list[str]]:
 
 
 def handlers(repo: Repo) -> Iterator[Handler]:
+    """every except handler of the repo, classified on the function with local aliases
+    propagated (``error = self.env.error`` ... ``error(err)`` is still a route)"""
+    import copy
+
+    from ..normalize import propagate_aliases
+
     for f in repo.all_functions():
-        for n in ast.walk(f.node):
+        if not any(isinstance(n, ast.Try) for n in ast.walk(f.node)):
+            continue
+        node = propagate_aliases(copy.deepcopy(f.node))
+        for n in ast.walk(node):
             if isinstance(n, ast.Try):
                 for h in n.handlers:
                     kinds, raised = classify(h)
